@@ -17,8 +17,17 @@ INF = float('inf')
 _N = [0]
 
 
+def tv(v):
+    """1, 1.0 and True are equal but different items: compare values together with their type"""
+    if isinstance(v, (bool, int, float)):
+        return '%s:%r' % (type(v).__name__, v)
+    return v
+
+
 def mk_filter(spec):
     k = spec[0]
+    if k == 'type':
+        return lambda item, v=spec[1]: type(item).__name__ == v
     if k == 'any':
         return lambda item: True
     if k == 'none':
@@ -49,7 +58,7 @@ def run_a(case):
             v = ev.value
             if isinstance(v, PriorityItem):
                 v = [v.priority, v.item]
-            grants.append((i, env.now, v))
+            grants.append((i, env.now, tv(v) if kind in ('store', 'fstore') else v))
         return cb
 
     def driver():
@@ -91,7 +100,7 @@ def run_a(case):
             if kind == 'container':
                 insp.append((env.now, res.level, len(res.put_queue), len(res.get_queue)))
             else:
-                items = [[x.priority, x.item] if isinstance(x, PriorityItem) else x for x in res.items]
+                items = [[x.priority, x.item] if isinstance(x, PriorityItem) else tv(x) for x in res.items]
                 insp.append((env.now, items, len(res.put_queue), len(res.get_queue)))
             yield env.timeout(1)
 
@@ -149,7 +158,7 @@ def model_a(case):
                     v = items.pop(idx)
                     getq.remove((i, flt))
                     reqs[i]['state'] = 'granted'
-                    sched.append((i, v))
+                    sched.append((i, tv(v)))
             return
         while getq:
             i, pay = getq[0]
@@ -162,6 +171,8 @@ def model_a(case):
             else:
                 if items:
                     v = items.pop(0)
+                    if kind == 'store':
+                        v = tv(v)
                 else:
                     break
             getq.pop(0)
@@ -202,7 +213,7 @@ def model_a(case):
         if kind == 'container':
             insp.append((t + 0.5, level, len(putq), len(getq)))
         else:
-            insp.append((t + 0.5, list(items), len(putq), len(getq)))
+            insp.append((t + 0.5, [x if kind == 'pstore' else tv(x) for x in items], len(putq), len(getq)))
     return grants, insp, [r['state'] == 'granted' for r in reqs]
 
 
@@ -232,35 +243,47 @@ def run_b(case):
         yield env.timeout(u['arrive'] + u['phase'] / 16)
         tries = u.get('retry', 0)
         first = True
+        outside = case.get('catch') == 'outside'
+
+        def handle(it):
+            nonlocal tries
+            c = it.cause
+            if isinstance(c, Preempted):
+                by = next((k for k, p in procs.items() if p is c.by), None)
+                log.append(('preempted', env.now, by, c.usage_since, c.resource is res))
+                if tries > 0:
+                    tries -= 1
+                    return True
+            else:
+                log.append(('interrupt', env.now))
+            return False
+
         while True:
             # (a retry issues its new requests from the segment that handled the Interrupt)
             again = False
-            with contextlib.ExitStack() as stack:
-                reqs = [stack.enter_context(make(u)) for _ in range(u.get('burst', 1))]
-                log.append(('request', env.now))
-                try:
-                    if u.get('patience') is None or not first or len(reqs) > 1:
-                        for req in reqs:
-                            yield req
-                    else:
-                        yield reqs[0] | env.timeout(u['patience'])
-                    if not reqs[0].triggered:
-                        log.append(('gave_up', env.now))
-                    else:
-                        log.append(('granted', env.now))
-                        if u['hold']:
-                            yield env.timeout(u['hold'])
-                        log.append(('release', env.now))
-                except Interrupt as it:
-                    c = it.cause
-                    if isinstance(c, Preempted):
-                        by = next((k for k, p in procs.items() if p is c.by), None)
-                        log.append(('preempted', env.now, by, c.usage_since, c.resource is res))
-                        if tries > 0:
-                            tries -= 1
-                            again = True
-                    else:
-                        log.append(('interrupt', env.now))
+            try:
+                with contextlib.ExitStack() as stack:
+                    reqs = [stack.enter_context(make(u)) for _ in range(u.get('burst', 1))]
+                    log.append(('request', env.now))
+                    try:
+                        if u.get('patience') is None or not first or len(reqs) > 1:
+                            for req in reqs:
+                                yield req
+                        else:
+                            yield reqs[0] | env.timeout(u['patience'])
+                        if not reqs[0].triggered:
+                            log.append(('gave_up', env.now))
+                        else:
+                            log.append(('granted', env.now))
+                            if u['hold']:
+                                yield env.timeout(u['hold'])
+                            log.append(('release', env.now))
+                    except Interrupt as it:
+                        if outside:
+                            raise           # the with-blocks are left by the Interrupt itself
+                        again = handle(it)
+            except Interrupt as it:
+                again = handle(it)
             first = False
             if not again:
                 break
@@ -278,7 +301,11 @@ def run_b(case):
     return logs, insp
 
 
+extra_evictions = [0]
+
+
 def model_b(case):
+    extra_evictions[0] = 0
     kind = case['kind']
     cap = case['capacity']
     us = case['users']
@@ -320,6 +347,7 @@ def model_b(case):
                     v = cand['i']
                     if ('ev', v, gen[v]) in seen:
                         extra.add((v, gen[v]))
+                        extra_evictions[0] += 1
                     else:
                         # the first eviction of this attempt interrupts the process: it leaves its with-block (giving
                         # back every other slot and pending request) later in this time step; further evictions before
@@ -436,14 +464,16 @@ def cases(draw, tier):
                     elif fam == 'pstore':
                         batch.append(['put', [draw(st.integers(0, 3)), n]])
                     else:
-                        batch.append(['put', draw(st.integers(0, 4))])
+                        # (equal items of different types are different items)
+                        batch.append(['put', draw(st.sampled_from([0, 1, 2, 3, 4, 1, 1.0, True, 2.0, 0.0, False]))])
                     n += 1
                 elif r < 8:
                     if fam == 'container':
                         batch.append(['get', draw(st.integers(1, 4))])
                     elif fam == 'fstore':
-                        f = draw(st.sampled_from(['any', 'none', 'eq', 'eq', 'ge']))
-                        batch.append(['get', [f] + ([draw(st.integers(0, 4))] if f in ('eq', 'ge') else [])])
+                        f = draw(st.sampled_from(['any', 'none', 'eq', 'eq', 'ge', 'type', 'type']))
+                        batch.append(['get', [f] + ([draw(st.integers(0, 4))] if f in ('eq', 'ge') else
+                                                    [draw(st.sampled_from(['int', 'float', 'bool']))] if f == 'type' else [])])
                     else:
                         batch.append(['get', None])
                     n += 1
@@ -454,8 +484,26 @@ def cases(draw, tier):
     nusers = draw(st.integers(1, 7 if big else 6))
     phases = draw(st.permutations(list(range(1, 15))))[:nusers]
     users = []
-    mode = draw(st.sampled_from(['plain', 'plain', 'retry', 'burst', 'both'])) if fam == 'preemptive' else \
+    mode = draw(st.sampled_from(['plain', 'plain', 'retry', 'burst', 'both', 'duel'])) if fam == 'preemptive' else \
         draw(st.sampled_from(['plain', 'plain', 'burst']))
+    if mode == 'duel':
+        # a user collects its slots one after the other (different usage_since) and loses several of them to the
+        # burst of one better rival: the evictions are reported in eviction order
+        cap = draw(st.integers(2, 3))
+        ph = draw(st.permutations(list(range(1, 15))))
+        hw = draw(st.integers(1, 3))
+        users = [{'phase': min(ph[0], ph[1]), 'arrive': 0, 'priority': draw(st.integers(0, 3)), 'preempt': True,
+                  'patience': None, 'hold': hw},
+                 {'phase': max(ph[0], ph[1]), 'arrive': 0, 'priority': draw(st.integers(2, 3)), 'preempt': draw(st.booleans()),
+                  'patience': None, 'hold': draw(st.integers(6, 9)), 'burst': cap},
+                 {'phase': ph[2], 'arrive': hw + draw(st.integers(1, 3)), 'priority': draw(st.integers(0, 1)), 'preempt': True,
+                  'patience': None, 'hold': draw(st.integers(1, 3)), 'burst': draw(st.integers(2, cap))}]
+        for j in range(draw(st.integers(0, 2))):
+            users.append({'phase': ph[3 + j], 'arrive': draw(st.integers(0, 9)), 'priority': draw(st.integers(0, 3)),
+                          'preempt': draw(st.booleans()), 'patience': draw(st.sampled_from([None, 2])),
+                          'hold': draw(st.integers(0, 3))})
+        return {'kind': fam, 'capacity': cap, 'users': users, 'horizon': 40,
+                'catch': draw(st.sampled_from(['inside', 'outside']))}
     for i in range(nusers):
         u = {'phase': phases[i], 'arrive': draw(st.integers(0, 4)), 'priority': draw(st.integers(0, 3)),
              'preempt': draw(st.booleans()) if fam == 'preemptive' else True,
@@ -480,7 +528,8 @@ def cases(draw, tier):
         cap = draw(st.integers(1, 2))
     if mode in ('burst', 'both'):
         cap = max(cap, max(u.get('burst', 1) for u in users))       # (a larger burst than capacity never completes)
-    return {'kind': fam, 'capacity': cap, 'users': users, 'horizon': 40}
+    return {'kind': fam, 'capacity': cap, 'users': users, 'horizon': 40,
+            'catch': draw(st.sampled_from(['inside', 'outside']))}
 
 
 class C19(Check):
@@ -625,6 +674,8 @@ class C19(Check):
             out.features.add('preempted_again_after_retry')
         if any(u.get('burst', 1) > 1 and any(e[0] == 'preempted' for e in want_l[i]) for i, u in enumerate(case['users'])):
             out.features.add('multi_slot_user_preempted')
+        if extra_evictions[0]:
+            out.features.add('several_evictions_of_one_user_in_one_activation')
         out.nontrivial = any(e[0] in ('preempted', 'gave_up') for l in want_l.values() for e in l) or \
             any(len(l) >= 2 and l[1][0] == 'granted' and l[1][1] > l[0][1] for l in want_l.values())
 
